@@ -49,6 +49,17 @@ def readLoop (d : Dev) (devSize start size pss : Nat) (total : Nat) (acc : Bytes
 termination_by size - total
 decreasing_by omega
 
+/-- the (offset, requested length) of every ReadAt the read loop issues, in order -/
+def readReqs (devSize start size pss : Nat) (total : Nat) (acc : List (Nat × Nat)) : List (Nat × Nat) :=
+  let toRead := min pss (size - total)
+  let avail := devSize - (start + total)
+  let n := min toRead avail
+  let acc' := acc ++ [(start + total, toRead)]
+  if n < toRead ∨ total + n ≥ size ∨ n = 0 then acc'
+  else readReqs devSize start size pss (total + n) acc'
+termination_by size - total
+decreasing_by omega
+
 def readContents (d : Dev) (devSize start size pss : Nat) : Bytes × Nat :=
   readLoop d devSize start size pss 0 []
 
